@@ -469,6 +469,7 @@ def run(ctx: Ctx) -> None:
     _order.rule_sequence_source(ctx, [("graphiq/circuit/circuit_dag.py", "CircuitDAG.to_json"), ("graphiq/circuit/circuit_dag.py", "CircuitDAG._slim_seq"), ("graphiq/circuit/circuit_base.py", "CircuitBase.to_openqasm")])
     from ..rules import memo as _memo
     _memo.rule_memo_sound(ctx, ['graphiq/circuit/circuit_dag.py', 'graphiq/utils/openqasm_lib.py', 'graphiq/circuit/ops.py'])
+    _memo.rule_falsy_zero(ctx, ['graphiq/circuit/circuit_dag.py', 'graphiq/utils/openqasm_lib.py', 'graphiq/circuit/ops.py'])
     rule_regex_groups(ctx)
     rule_header_cover(ctx)
     rule_table_json(ctx)
